@@ -356,3 +356,33 @@ def leaf_multiset(acc, root, depth):
     for _ in range(depth):
         branch = [int(acc[v][j]) for v in branch for j in live(acc, v)]
     return sorted(branch)
+
+
+# ---------------------------------------------------------------- intersection scores (C19)
+def leaf_set(latter_map, root, depth):
+    branch = [root]
+    for _ in range(depth):
+        branch = [w for v in branch for w in latter_map.get(v, [])]
+    return set(branch)
+
+
+def intersection_scores(latter_map, k, has_insertion, has_deletion):
+    """score of arc u -> v (stored at [u][v % 4]) in the scheme the arc-removal heuristic uses, restated over SETS of end points of
+    (k-1)-step walks L(x):  substitution: sum over the sibling arcs u -> v' (v' != v) of |L(v) | L(v')| ;  insertion: sum over the arcs
+    v -> w of |L(v) | L(w)| ;  deletion: |L(v) | L(u)|."""
+    n = 4 ** k
+    scores = [[0, 0, 0, 0] for _ in range(n)]
+    depth = k - 1
+    for u, succs in latter_map.items():
+        leaves = [leaf_set(latter_map, v, depth) for v in succs]
+        for a in range(len(succs)):
+            col = succs[a] % 4
+            for b in range(len(succs)):
+                if a != b:
+                    scores[u][col] += len(leaves[a] | leaves[b])
+            if has_insertion:
+                for w in latter_map.get(succs[a], []):
+                    scores[u][col] += len(leaves[a] | leaf_set(latter_map, w, depth))
+            if has_deletion:
+                scores[u][col] += len(leaves[a] | leaf_set(latter_map, u, depth))
+    return scores
